@@ -256,6 +256,38 @@ def wordM : Machine :=
 example : errOf (runTop wordM 40 2 { src := { rest := [1, 2, 3, 4, 5] } }) = some (.nonterminal, 3) := by
   decide +kernel
 
+/-! ### finding: an unrecognized CPF item was not confined to its length (repaired by a `fix:`)
+
+One CPF item as the library parses it: `type_id` (UINT), `length` (UINT), then - for a type the
+library does not recognize - the item's octets.  `fixed = false` is the code before the `fix:`
+commit (a self-looping `octets` state with no limit: "just parse remainder"), `fixed = true` the
+repaired code (`octets(repeat='.length')`).
+0 byte leaf, 1 type_id -> field 0, 2 length -> field 1, 3 done, 4 unrecognized, 5 the item dfa -/
+def cpfItem (fixed : Bool) : Machine :=
+  [ { kind := .input, term := true },
+    { kind := .dfa 0 (.const 2) (some 0), edges := [(.any, [.plain (some 2)])] },
+    { kind := .dfa 0 (.const 2) (some 1),
+      edges := [(.eps, [.guard (.eq 1 0) (some 3), .plain (some 4)])] },
+    { kind := .null, term := true },
+    if fixed then { kind := .dfa 0 (.field 1) none, term := true }
+    else { kind := .dfa 0 .none none, term := true, edges := [(.any, [.plain (some 4)])] },
+    { kind := .dfa 1 .none none, term := true } ]
+
+/-- an item of type 0x9999 with length 2 (`AA BB`), followed by three octets of the enclosing
+grammar: the item ends after 6 octets -/
+def cpfItemInput : World := { src := { rest := [0x99, 0x99, 2, 0, 0xAA, 0xBB, 0x11, 0x22, 0x33] } }
+
+/-- **The code before the fix read past the item's length** (all 9 octets: 3 beyond the boundary
+declared by the length field it had just parsed) - the replay used against the implementation. -/
+theorem cpfItemOld_overreads :
+    sentOf (runTop (cpfItem false) 60 5 cpfItemInput) = some (9, none, true) := by
+  decide +kernel
+
+/-- the repaired item parser stops at the boundary and leaves `11 22 33` -/
+theorem cpfItem_confined :
+    sentOf (runTop (cpfItem true) 60 5 cpfItemInput) = some (6, some 0x11, true) := by
+  decide +kernel
+
 /-- repeat 0: nothing consumed; the dfa reports terminal because `current` is still the
 (terminal) state the constructor left there -/
 example : sentOf (runTop [ { kind := .input, term := true },
